@@ -52,7 +52,12 @@ theorem evalRT_eq_narrow_evalR :
   | .map kvs, t, f, h => by
     obtain ⟨b, m, a⟩ := t
     simp only [HasTyR] at h
-    obtain ⟨ha, hm, hk⟩ := h
+    rcases h with ⟨ha, hm, hk⟩ | ⟨ha, hm, hl, hj⟩
+    case inr =>
+      try simp only at ha hm hl
+      subst ha; subst hm
+      rw [narrow_scalar hF b hl]
+      exact evalRT_json st F ρ _ ⟨b, 0, 0⟩ f (by simpa [jsonR] using hj) rfl hl
     try simp only at ha hm
     subst ha
     cases m with
@@ -90,7 +95,13 @@ theorem evalRT_eq_narrow_evalR :
     simp only [HasTyR] at h
     simp only [evalRT, evalR]
     rw [evalRT_eq_narrow_evalR e ⟨b, m, a + 1⟩ f h, elemArr_narrow hF]
-  | .split _ true _, _, _, h => by simp [HasTyR] at h
+  | .split c true e, t, f, h => by
+    obtain ⟨b, m, a⟩ := t
+    simp only [HasTyR] at h
+    have hm0 : m = 0 := h.1.mapDim
+    subst hm0
+    simp only [evalRT, evalR]
+    rw [evalRT_eq_narrow_evalR e ⟨b, a + 1, 0⟩ f h.2, elemMap_narrow hF]
   | .merge c false e, t, f, h => by
     obtain ⟨b, m, a⟩ := t
     simp only [HasTyR] at h
@@ -102,7 +113,21 @@ theorem evalRT_eq_narrow_evalR :
       apply List.map_congr_left
       intro ix _
       exact evalRT_eq_narrow_evalR e ⟨b, m, n⟩ (fset f c ix) h.2.2
-  | .merge _ true _, _, _, h => by simp [HasTyR] at h
+  | .merge c true e, t, f, h => by
+    obtain ⟨b, m, a⟩ := t
+    simp only [HasTyR] at h
+    obtain ⟨ha, hm, _, he⟩ := h
+    try simp only at ha hm
+    subst ha
+    cases m with
+    | zero => exact absurd rfl hm
+    | succ k =>
+      simp only [evalRT, evalR, Nat.add_sub_cancel, narrow_obj hF, List.map_map]
+      congr 1
+      apply List.map_congr_left
+      intro ix _
+      simp only [Function.comp_apply, Prod.mk.injEq, true_and]
+      exact evalRT_eq_narrow_evalR e ⟨b, 0, k⟩ (fset f c ix) he
   | .disabled d v, t, f, h => by
     simp only [HasTyR] at h
     simp only [evalRT, evalR]
